@@ -17,8 +17,9 @@ CALLS = {   # external calls of interest -> (label, SPEC raisable on arbitrary i
     "json.load": ("json.load", ["JSONDecodeError", "UnicodeDecodeError", "RecursionError"], False),
     "jsonschema.validate": ("jsonschema.validate", ["ValidationError", "RecursionError"], False),
     "json_deserialization.read_aas_json_file": ("read_aas_json_file", ["JSONDecodeError", "UnicodeDecodeError"], True),
-    "etree.parse": ("etree.parse", ["XMLSyntaxError"], False),
-    "xml_deserialization.read_aas_xml_file": ("read_aas_xml_file", [], True),
+    # OSError: reading from a FILE, lxml reports bytes that are invalid in the document's encoding as an I/O error
+    "etree.parse": ("etree.parse", ["XMLSyntaxError", "OSError"], False),
+    "xml_deserialization.read_aas_xml_file": ("read_aas_xml_file", ["OSError"], True),
     "aasx.AASXReader": ("AASXReader", ["FileNotFoundError", "ValueError"], True),
     "reader.read_into": ("read_into", ["ValueError", "KeyError", "XMLSyntaxError"], True),
     "reader.reader.get_related_parts_by_type": ("get_related_parts", ["ValueError", "KeyError", "XMLSyntaxError"], False),
